@@ -38,6 +38,27 @@ def check(ctx, cfg):
     r4(ctx, cfg)
     r5(ctx, cfg)
     r6(ctx, cfg)
+    r7(ctx, cfg)
+
+
+def r7(ctx, cfg):
+    """who may write delegation state"""
+    F, P = cfg.facts, cfg.prov
+    R = "C14.R7"
+    exp = {STAKES: {SK + "update_stake", SK + "slash", SK + "process_queue", SK + "update_rewards", "staking::DistributionKeeper::remove_rewards"},
+           VINFO: {SK + "update_stake", SK + "slash", SK + "update_rewards", SK + "add_validator", SK + "remove_staker"},
+           QUEUE: {SK + "slash", SK + "process_queue", EXEC}}
+    for item, allowed in exp.items():
+        writers = set()
+        for f in F.user_fns():
+            if f.file != "src/staking.rs":
+                continue
+            if store_calls(P, f, item, ("save", "remove", "update", "clear")):
+                writers.add(f.key.split("::{closure")[0])
+        ctx.ob(R, item[1], "writers", writers <= allowed and bool(writers), "%s is written by %s (unlisted: %s)" % (item[1], sorted(writers), sorted(writers - allowed)),
+               sample=str(sorted(w.rsplit("::", 1)[-1] for w in writers)))
+    q.who_may_call(ctx, R, F, SK + "update_stake", {SK + "add_stake", SK + "remove_stake"}, "stake changes go through add_stake / remove_stake (denomination check)")
+    q.who_may_call(ctx, R, F, SK + "slash", {"<staking::StakeKeeper as module::Module>::sudo"}, "slashing comes from StakingSudo::Slash only")
 
 
 def r6(ctx, cfg):
